@@ -63,7 +63,36 @@ func (a Atom) Contradicts(b Atom) bool {
 	if a.EqLHS != "" && a.EqLHS == b.EqLHS && a.EqConst != b.EqConst && a.Pos && b.Pos {
 		return true
 	}
+	// (E == 0) versus (E > 0): both true, or both false for unsigned/len E.
+	za, zb := zeroTest(a), zeroTest(b)
+	if za.e != "" && za.e == zb.e {
+		// za.isZero: the atom (with its polarity) states E == 0.
+		if za.known && zb.known && za.isZero != zb.isZero {
+			return true
+		}
+	}
 	return false
+}
+
+type zt struct {
+	e      string
+	isZero bool
+	known  bool
+}
+
+// zeroTest recognises atoms of the forms (len(X) == 0) and (len(X) > 0) and
+// reports what they state about len(X) being zero.
+func zeroTest(a Atom) zt {
+	if !strings.HasPrefix(a.Expr, "(len(") {
+		return zt{}
+	}
+	switch {
+	case strings.HasSuffix(a.Expr, " == 0)"):
+		return zt{e: strings.TrimSuffix(a.Expr, " == 0)"), isZero: a.Pos, known: true}
+	case strings.HasSuffix(a.Expr, " > 0)"):
+		return zt{e: strings.TrimSuffix(a.Expr, " > 0)"), isZero: !a.Pos, known: true}
+	}
+	return zt{}
 }
 
 // edgeAtom returns the atom established by travelling from block b to its
